@@ -36,6 +36,10 @@ type iterator struct {
 
 	closer io.Closer
 
+	// When true, this iterator holds a ref-count on ss, see
+	// segmentStack.StartIterator().
+	ssRefHeld bool
+
 	iteratorOptions IteratorOptions
 }
 
@@ -76,7 +80,18 @@ func (ss *segmentStack) StartIterator(
 		return nil, err
 	}
 
-	return iter.optimize()
+	rv, err := iter.optimize()
+	if err == nil && rv == Iterator(iter) && ss.lowerLevelSnapshot != nil {
+		// The iterator keeps going through ss.lowerLevelSnapshot, to
+		// resolve merge operations and to reposition itself on a
+		// backwards SeekTo(), so it has to keep ss from releasing the
+		// lowerLevelSnapshot when the snapshot that the iterator came
+		// from is closed before the iterator.
+		ss.addRef()
+		iter.ssRefHeld = true
+	}
+
+	return rv, err
 }
 
 // startIterator() returns a new iterator on the given segmentStack.
@@ -214,6 +229,11 @@ func (iter *iterator) Close() error {
 		iter.closer = nil
 	}
 
+	if iter.ssRefHeld {
+		iter.ssRefHeld = false
+		iter.ss.decRef()
+	}
+
 	return nil
 }
 
@@ -337,6 +357,7 @@ func (iter *iterator) SeekTo(seekToKey []byte) error {
 
 	iterOld := *iter // Clone current iterator before overwriting it.
 	iterOld.closer = nil
+	iterOld.ssRefHeld = false
 
 	iter.cursors = iterNew.cursors
 	iter.lowerLevelIter = iterNew.lowerLevelIter
